@@ -198,6 +198,10 @@ def lifetime_probes():
     out.append(("life:call_in_loop", HDR + "def g(v):\n    t = v * 3\n    u = t + 1\n    db.Mode = u\n    return u - v\n\ndef f(n):\n    a = d0.Setting\n    acc = 0\n    for i in range(3):\n        b = a + i\n        r = g(b)\n        acc = acc + r + b\n        d1.Setting = acc\n    db.Setting = acc + a + n\n\nf(d3.Setting)\nf(2)\n"))
     out.append(("life:main_loop_globals", HDR + "a = d0.Setting\nb = 0\nwhile True:\n    yield_()\n    t = d1.Setting + a\n    u = t * 2\n    b = b + u\n    db.Setting = b\n    if b > 100:\n        break\ndb.Mode = a + b\n"))
     out.append(("life:loop_in_branch", F + "    a = d0.Setting\n    if a > 1:\n        for i in range(2):\n            z = a * i\n            d1.Setting = z\n    else:\n        z2 = a + 5\n        d2.Setting = z2\n    db.Setting = a + n\n\nf(d3.Setting)\nf(2)\n"))
+    for nm, hdr, call in (("stop", "def total(count):\n    acc = 0\n    for k in range(count):\n", "total(d0.Setting) + total(3)"),
+                          ("start_stop", "def total(lo, hi):\n    acc = 0\n    for k in range(lo, hi):\n", "total(d0.Setting, d1.Setting) + total(1, 4)"),
+                          ("step", "def total(lo, hi, st):\n    acc = 0\n    for k in range(lo, hi, st):\n", "total(0, d1.Setting, 2) + total(1, 8, 3)")):
+        out.append((f"life:range_bound_param:{nm}", HDR + hdr + "        acc = acc + k * k\n        d2.Setting = acc - k * 2\n    return acc\n\ndb.Setting = " + call + "\n"))
     out.append(("life:two_loops_seq", F + "    a = d0.Setting\n    for i in range(2):\n        p = a + i\n        d1.Setting = p\n    b = d2.Setting\n    for k in range(2):\n        q = b + k + a\n        d4.Setting = q\n    db.Setting = a + b + n\n\nf(d3.Setting)\nf(2)\n"))
     return out
 
